@@ -51,11 +51,17 @@ COMMANDS = {
     "read_inloop": ("inloop", "", None),
     "while_def_fail": ("def wn = 0; while wn < 3 do wn += 1; def inwhile = wn; if wn == 2 then error 'w' end", "def wn = 2; def inwhile = 2", True),
     "read_inwhile": ("[wn, inwhile]", "", None),
+    # a loop aborted by a syntax error raised at RUN time (the body requires a module that does not parse) leaves no loop variable behind
+    # and puts a hidden variable back, like a loop aborted by a runtime error
+    "loop_req_broken": ("for w2 in [1, 2] do require Broken end", "", True),
+    "read_w2": ("w2", "", None),
+    "loop_req_broken2": ("def w3 = 7; for w3 in [1, 2] do require Broken end", "def w3 = 7", True),
+    "read_w3": ("w3", "", None),
 }
 
 
-DEFINES = {"def_x": ["x"], "def_x0": ["x0"], "def_q": ["qq"], "def_then_fail": ["late", "late2"], "loop_def_fail": ["inloop"], "while_def_fail": ["inwhile"]}
-READS = {"read_x": "x", "read_q": "qq", "read_late": "late2", "assign_x": "x", "read_inloop": "inloop", "read_inwhile": "inwhile"}
+DEFINES = {"def_x": ["x"], "def_x0": ["x0"], "def_q": ["qq"], "def_then_fail": ["late", "late2"], "loop_def_fail": ["inloop"], "while_def_fail": ["inwhile"], "loop_req_broken2": ["w3"]}
+READS = {"read_x": "x", "read_q": "qq", "read_late": "late2", "assign_x": "x", "read_inloop": "inloop", "read_inwhile": "inwhile", "read_w3": "w3"}
 
 
 def run_history(cmds, interleave=None):
@@ -115,7 +121,7 @@ def _history_worker(hs):
         for k, (c, o) in enumerate(zip(h, outs)):
             if c in READS and READS[c] in defined and o[0][0] != 'val':
                 viols.append(f"`{COMMANDS[c][0]}` gives {o[0]} although `{READS[c]}` was defined by an earlier call (history {cmds[:k + 1]})")
-            if c in DEFINES and (o[0][0] == 'val' or c in ("def_then_fail", "loop_def_fail", "while_def_fail")):
+            if c in DEFINES and (o[0][0] == 'val' or c in ("def_then_fail", "loop_def_fail", "while_def_fail", "loop_req_broken2")):
                 defined.update(DEFINES[c])
         # (2) erasure: the surviving calls behave as if the failed remainders had never run
         if any(o[0][0] in ('rt', 'syn') for o in outs):
